@@ -67,11 +67,10 @@ fn print_raw(lib: &raw::Library) -> Value {
     let ls: Vec<Value> = layers.slots.iter().map(|(_, l)| json!([l.layernum, l.name])).collect();
     json!({"name": lib.name, "units": format!("{:?}", lib.units), "cells": cells, "layers": ls})
 }
+/// Creation dates are the documented exception of the property: replace them by a FIXED date.
+/// (`GdsDateTimes::default()` is the time of the call, so it must not be used here.)
 fn zero_dates(g: &mut gds21::GdsLibrary) {
-    g.dates = Default::default();
-    for s in g.structs.iter_mut() {
-        s.dates = Default::default();
-    }
+    g.set_all_dates(gds21::GdsDateTime::from(&[2000i16, 1, 1, 0, 0, 0]));
 }
 fn chain_from_raw(lib: &raw::Library, out: &mut Vec<(String, String)>) {
     out.push(("raw".into(), print_raw(lib).to_string()));
@@ -146,6 +145,60 @@ fn once(case: &Value) -> Vec<(String, String)> {
                     Err(e) => out.push(("lef_to_raw".into(), format!("ERR {}", short(&format!("{:?}", e))))),
                     Ok(lib) => chain_from_raw(&lib, &mut out),
                 },
+            }
+        }
+        "rawlib" => {
+            // a raw library built directly through the public API: cells in ANY listing order (a parent may be listed
+            // before its children, which no importer produces). "cells": [{"name", "insts": [cell index, ...]}]
+            let mut lib = raw::Library::new("rawlib", raw::Units::Nano);
+            lib.layers = prepared_layers();
+            let cspecs = case["cells"].as_array().unwrap();
+            let ptrs: Vec<Ptr<raw::Cell>> =
+                cspecs.iter().map(|c| lib.cells.insert(raw::Cell::new(c["name"].as_str().unwrap()))).collect();
+            for (c, p) in cspecs.iter().zip(ptrs.iter()) {
+                let mut cell = p.write().unwrap();
+                let mut layout = raw::Layout { name: c["name"].as_str().unwrap().to_string(), insts: vec![], elems: vec![], annotations: vec![] };
+                for (k, i) in c["insts"].as_array().unwrap().iter().enumerate() {
+                    layout.insts.push(raw::Instance {
+                        inst_name: format!("i{}", k),
+                        cell: ptrs[i.as_u64().unwrap() as usize].clone(),
+                        loc: raw::Point::new(10 * k as isize, 0),
+                        reflect_vert: false,
+                        angle: None,
+                    });
+                }
+                cell.layout = Some(layout);
+            }
+            chain_from_raw(&lib, &mut out);
+        }
+        "tech" => {
+            // technology protobuf -> Layers (layout21raw::Layers::from_proto, used by proto2gds): the layer table in
+            // its own (slot) order. "layers": [[index, sub_index, purpose type 0..5 | null], ...]
+            let mut t = layout21protos::tech::Technology::default();
+            t.name = "tech".into();
+            for l in case["layers"].as_array().unwrap() {
+                let mut li = layout21protos::tech::LayerInfo::default();
+                li.index = l[0].as_u64().unwrap();
+                li.sub_index = l[1].as_u64().unwrap();
+                li.name = format!("l{}_{}", li.index, li.sub_index);
+                if let Some(ty) = l[2].as_i64() {
+                    li.purpose = Some(layout21protos::tech::LayerPurpose { description: "p".into(), r#type: ty as i32 });
+                }
+                t.layers.push(li);
+            }
+            match raw::Layers::from_proto(&t) {
+                Err(e) => out.push(("tech_to_layers".into(), format!("ERR {}", short(&format!("{:?}", e))))),
+                Ok(layers) => {
+                    let v: Vec<Value> = layers
+                        .slots()
+                        .iter()
+                        .map(|(_k, l)| {
+                            let purps: Vec<Value> = (0..64i16).filter_map(|n| l.purpose(n).map(|p| json!([n, format!("{:?}", p)]))).collect();
+                            json!([l.layernum, l.name, purps])
+                        })
+                        .collect();
+                    out.push(("tech_to_layers".into(), Value::Array(v).to_string()));
+                }
             }
         }
         _ => out.push(("bad_src".into(), "".into())),
